@@ -25,6 +25,9 @@ type C16Script struct {
 	NilCategories                             bool
 	AutoAccept                                bool
 	Port                                      int
+	// Life: what happens to the announcement before it is read: unannounce | announce | auto:true | auto:false
+	// (the service is announced again at the end if it is not)
+	Life []string `json:",omitempty"`
 }
 
 const (
@@ -45,6 +48,7 @@ func cats(sc C16Script) []api.DeviceCategoryType {
 }
 
 type c16Obs struct {
+	Auto  bool // the auto accept value in force when the announcement was read
 	Txt   []string
 	QR    string
 	Entry *api.MdnsEntry
@@ -60,6 +64,24 @@ func runC16(sc C16Script) *c16Obs {
 		return o
 	}
 	m1.SetAutoAccept(sc.AutoAccept)
+	o.Auto = sc.AutoAccept
+	announced := true
+	for _, op := range sc.Life {
+		switch op {
+		case "unannounce":
+			m1.UnannounceMdnsEntry()
+			announced = false
+		case "announce":
+			_ = m1.AnnounceMdnsEntry()
+			announced = true
+		case "auto:true", "auto:false":
+			o.Auto = op == "auto:true"
+			m1.SetAutoAccept(o.Auto)
+		}
+	}
+	if !announced {
+		_ = m1.AnnounceMdnsEntry()
+	}
 	ann, ok := fp.Last()
 	if !ok {
 		o.Herr = "nothing announced"
@@ -199,8 +221,8 @@ func judgeC16(t *testing.T, sc C16Script) (key, msg string) {
 			return k2, fmt.Sprintf("browser read %s=%q, announced was %q (TXT %q)", w.name, w.got, w.want, o.Txt)
 		}
 	}
-	if e.Register != sc.AutoAccept {
-		return "C16/readback", fmt.Sprintf("browser read register=%v, configured auto accept=%v", e.Register, sc.AutoAccept)
+	if e.Register != o.Auto {
+		return "C16/readback", fmt.Sprintf("browser read register=%v, configured auto accept=%v (life of the announcement: %v)", e.Register, o.Auto, sc.Life)
 	}
 	wc := cats(sc)
 	if len(e.Categories) != len(wc) {
@@ -279,6 +301,7 @@ func genC16(t *rapid.T) C16Script {
 	sc := C16Script{
 		Brand: genField(t, "brand", desc), Model: genField(t, "model", desc), Type: genField(t, "type", desc), Serial: genField(t, "serial", desc),
 		AutoAccept: rapid.Bool().Draw(t, "auto"), Port: rapid.IntRange(1, 65535).Draw(t, "port"),
+		Life: rapid.SliceOfN(rapid.SampledFrom([]string{"unannounce", "announce", "auto:true", "auto:false"}), 0, 5).Draw(t, "life"),
 	}
 	if rapid.IntRange(0, 3).Draw(t, "skiKind") == 0 {
 		sc.Ski = genField(t, "ski", ident)
